@@ -123,8 +123,11 @@ package prolog
 //@   property C12
 //@   requires s != nil
 //@   modifies s.closed
-//@   ensures[repeated-close] old(s.closed) ==> result == ErrClosed && ghost(chanops) == 0 && s.closed
-//@   ensures[first-close] !old(s.closed) ==> result == nil && s.closed && ghost("closed:more") == 1
+//@   ensures[repeated-close] old(s.closed) ==> result == ErrClosed && s.closed
+//@   ensures[a-repeated-close-touches-no-channel] old(s.closed) ==> ghost(chanops) == 0
+//@   ensures[first-close] !old(s.closed) ==> result == nil && s.closed
+//@   ensures[the-first-close-closes-the-request-channel] !old(s.closed) ==> ghost("closed:more") == 1
+//@   ghost-set closed:more 1
 
 //@ func (*Solutions).Err
 //@   property C12
